@@ -132,6 +132,8 @@ def kinds_of_store(ctx, wm: WeaverModel, value: Val) -> List[Tuple[str, Optional
                 out = []
                 for ci in concrete_strategies(ctx.prog):
                     st = strategy(ctx.prog, ci.name)
+                    if any(isinstance(v_, Term) and v_.head == 'param' for v_ in st.init_fields.values()):
+                        continue     # generic base with a user-supplied sampling function: C04.5's concern, not a built-in strategy
                     r = st.result
                     if isinstance(r, Tup) and len(r.items) == 2:
                         arr = as_array(r.items[pos])
